@@ -26,7 +26,8 @@ def main():
         op, sid, payload = sys.argv[7], sys.argv[8], sys.argv[9]
         import frontend.client.services.file_manager as cfm
         import frontend.client.services.service as cs
-        cfm._PROGRAM_PATH = pathlib.Path(datadir)
+        import binding
+        binding.set_data_dir(cfm, datadir)
         s = cs.Service(sid)
         if op == "genkey":
             s.handle_create_key()
@@ -41,7 +42,8 @@ def main():
         import frontend.server.services.file_manager as sfm
         import frontend.server.services.services_manager as sm
         import frontend.server.connector as connector
-        sfm._PROGRAM_PATH = pathlib.Path(datadir)
+        import binding
+        binding.set_data_dir(sfm, datadir)
 
         class P:
             def __getattr__(self, n):
@@ -50,7 +52,8 @@ def main():
             async def sleep(self, d, result=None):
                 await asyncio.sleep(0)
                 return result
-        sm.asyncio = P()
+        _p = P()
+        binding.rebind(sm, {asyncio: _p, asyncio.sleep: _p.sleep})
 
         async def serve():
             srv = await websockets.serve(connector.handler, "127.0.0.1", 0, max_size=None)
